@@ -263,6 +263,12 @@ class Taint:
                             if k:
                                 zero = y['k'] == 'const' and y.get('int') in (0, 1)
                                 ents.append((k, y, zero))
+                            # `x.len()` of something reached through a shared reference is the same number the next time it is asked for
+                            lk_ = self.len_key(b, x) if x['k'] in ('copy', 'move') else None
+                            if lk_ and not lk_[2]:
+                                rty = b.lty(lk_[1])
+                                if rty.get('k') == 'ref' and not rty.get('mut'):
+                                    ents.append((lk_, y, y['k'] == 'const' and y.get('int') in (0, 1)))
                         cmp_of[st['pl']['l']] = ents
                     elif rv['k'] == 'unop' and rv['op'] == 'Not' and rv['a']['k'] in ('copy', 'move') and rv['a']['pl']['l'] in cmp_of:
                         cmp_of[st['pl']['l']] = cmp_of[rv['a']['pl']['l']]
@@ -549,6 +555,41 @@ class Taint:
                                 theirs = self.slice_canon(b, k[1])
                                 if theirs is not None and theirs[0] == mine[0] and not self._stored_between(b, cb, block, mine[1] | theirs[1]):
                                     return cb
+        # a value chosen on two paths (`let n = if len > MAX { MAX } else { len }`): range-checked when every alternative is a constant
+        # or is itself range-checked where it is assigned (a clamp written as if / else)
+        if not zero and depth < 2 and op['k'] in ('copy', 'move') and not op['pl']['p']:
+            ds = b.defs().get(op['pl']['l'], [])
+            hops = 0
+            while len(ds) == 1 and ds[0][0] == 'assign' and ds[0][1]['rv']['k'] in ('use', 'cast') and ds[0][1]['rv']['op']['k'] in ('copy', 'move') and \
+                    not ds[0][1]['rv']['op']['pl']['p'] and hops < 4:
+                ds = b.defs().get(ds[0][1]['rv']['op']['pl']['l'], [])     # a temporary copy of the variable
+                hops += 1
+            def _plain(d_):
+                return (d_[0] == 'assign' and not d_[1]['pl']['p'] and d_[1]['rv']['k'] in ('use', 'cast')) or \
+                    (d_[0] == 'call' and 'q' in d_[1]['callee'] and callee_q(d_[1]).endswith('::len') and d_[1]['args'])
+            if 2 <= len(ds) <= 4 and all(_plain(d_) for d_ in ds):
+                ok_all = True
+                for d_ in ds:
+                    if d_[0] == 'call':
+                        # `n = x.len()` assigned on one of the paths: checked if that length was compared on the way there
+                        base_ = b.base_of(d_[1]['args'][0])
+                        lk2 = ('LEN', base_[0], tuple(x[1] for x in base_[1])) if base_ else None
+                        dom2 = b.dominators().get(d_[2], set())
+                        if not (lk2 and any(cb in dom2 and any(k == lk2 and self.bound_ok(b, other, d_[2], depth + 1) for (k, other, z) in ents)
+                                            for cb, ents in self.cmp_blocks(b).items())):
+                            ok_all = False
+                            break
+                        continue
+                    src = d_[1]['rv']['op']
+                    if src['k'] == 'const':
+                        continue
+                    if not (self.op_level(b, src) & VANY):
+                        continue
+                    if self.op_sanitised(b, src, d_[2], zero=False, depth=depth + 1) is None:
+                        ok_all = False
+                        break
+                if ok_all:
+                    return -1
         return None
 
     def len_key(self, b, op, depth=0):
